@@ -853,3 +853,66 @@ def rule_query_selects_output(ctx):
                                   where=f"{m.relpath}:{s.lineno}", operand="output"))
     r.floor(n, 1, "query contractions with an explicit output spec")
     return r
+
+
+def rule_converged_by_tolerance(ctx):
+    r = RuleResult(
+        "converged-by-tolerance",
+        "the BP driver may declare convergence only from a measured message change compared with a tolerance: every store to "
+        "`self.converged` in a `run` method, other than the initialising constant, has a value that depends (def-use closure over the "
+        "locals) on one of the method's tolerance parameters — an empty work list, an iteration count or a flag of the update rule says "
+        "nothing about a fixed point when messages are damped",
+    )
+    n = 0
+    for m in ctx.prog.modules.values():
+        if not m.name.startswith("quimb.tensor.belief_propagation"):
+            continue
+        for c in m.classes.values():
+            f = c.methods.get("run")
+            if f is None or f.cls is not c or f.is_alias:
+                continue
+            tols = {p for p in f.params if p.startswith("tol")}
+            if not tols:
+                continue
+            ldefs = {}
+            for a in _own_walk(f.node):
+                if isinstance(a, ast.Assign):
+                    for t in a.targets:
+                        for y in ast.walk(t):
+                            if isinstance(y, ast.Name) and isinstance(y.ctx, ast.Store):
+                                ldefs.setdefault(y.id, []).append(a.value)
+
+            def depends(e):
+                seen, todo = set(), [e]
+                while todo:
+                    x = todo.pop()
+                    for y in ast.walk(x):
+                        if isinstance(y, ast.Name):
+                            if y.id in tols:
+                                return True
+                            if y.id not in seen:
+                                seen.add(y.id)
+                                todo.extend(ldefs.get(y.id, []))
+                return False
+
+            for a in _own_walk(f.node):
+                tgt = val = None
+                if isinstance(a, ast.Assign) and len(a.targets) == 1:
+                    tgt, val = a.targets[0], a.value
+                elif isinstance(a, ast.AugAssign):
+                    tgt, val = a.target, a.value
+                if not (isinstance(tgt, ast.Attribute) and tgt.attr == "converged" and isinstance(tgt.value, ast.Name) and tgt.value.id == "self"):
+                    continue
+                if isinstance(val, ast.Constant) and val.value is False:
+                    continue
+                n += 1
+                q = f"{c.name}.run:converged@{src_of(val)[:30]}"
+                if depends(val):
+                    r.ok(q, sample={"driver": f"{c.name}.run", "converged from": src_of(val)[:50], "tolerances": sorted(tols)})
+                else:
+                    r.bad(Finding("converged-by-tolerance", f"{c.name}.run",
+                                  f"`{src_of(a)[:60]}` declares convergence from a value that does not depend on any of {sorted(tols)}: no message change was compared with a "
+                                  "tolerance on this route (with damping, messages that are not re-queued are still moving)",
+                                  where=f"{m.relpath}:{a.lineno}", operand=f"converged:{src_of(val)[:30]}"))
+    r.floor(n, 2, "stores to self.converged in BP drivers")
+    return r
